@@ -130,7 +130,7 @@ def run(ctx):
     # random longer histories over wider ranges, multi-code markers, empty code lists, positions <= 0 (out of fragment)
     nrand = 5000 if ctx.tier != "thorough" else 60000
     rh = []
-    wide_codes = CODES + ["TONL", "PKGO03", "imm01", ""]
+    wide_codes = CODES + ["TONL", "PKGO03", "imm01", "", "IMM0", "I", "IM", "CTOR0", "A", "AL", "IMM010", "CTO"]
     for _ in range(nrand):
         k = rng.randint(1, 8)
         h = []
@@ -170,6 +170,32 @@ def run(ctx):
                        "replay_cmd": "checks/replay.sh <this file>"})
         if len(rep.violations) >= 5:
             break
+    # end to end: the decision is taken per POSITION.  Two diagnostics of one code on one line, the first inside the range of
+    # a stand-alone @ignore (which ends with the next statement / element, in mid-line), the second outside every range
+    import worlds, shutil
+    e2e = {"p/p.go": "package p\n\n// T is annotated.\n// @immutable\n// @constructor NewT\ntype T struct{ a, b int }\n\nfunc NewT() *T { return &T{} }\n\n"
+                     "func f(t *T) {\n\t// @ignore IMM01\n\tt.a = 1; t.b = 2\n\tt.a = 3; t.b = 4\n\t// @ignore IMM\n\tt.a++; t.b++\n\tt.a = 5 // @ignore IMM01\n}\n\n"
+                     "var xs = []T{\n\t// @ignore CTOR01\n\tT{a: 1}, T{a: 2},\n\tT{a: 3}, T{a: 4},\n}\n"}
+    want = {("p/p.go", 12, 11, "IMM01"), ("p/p.go", 13, 2, "IMM01"), ("p/p.go", 13, 11, "IMM01"), ("p/p.go", 15, 9, "IMM03"),
+            ("p/p.go", 21, 11, "CTOR01"), ("p/p.go", 22, 2, "CTOR01"), ("p/p.go", 22, 11, "CTOR01")}
+    ed = lib.scratch_dir()
+    eroot = os.path.join(ed, "m")
+    worlds.write_sources(eroot, e2e)
+    dump = os.path.join(ed, "dump.sx")
+    src, serr = worlds.skel(ctx, eroot, dump)
+    e2e_res = {}
+    for cname, cfg in (("default", (False, ["testdata"], [])),):
+        r = lib.run_binary(ctx, eroot, flags=worlds.cfg_flags(cfg))
+        m = worlds.model_analyze(ctx, dump, cfg, eroot)
+        got = worlds.keyset(r["diags"], with_col=True)
+        mod = worlds.keyset(m["diags"], with_col=True)
+        e2e_res[cname] = {"implementation": sorted(got), "model": sorted(mod)}
+        if got != want or mod != want or r["crashed"] or src != 0:
+            found = True
+            rep.violation({"property": "C16", "kind": "end-to-end", "files": e2e, "config": list(cfg), "expected": sorted(want), "implementation": sorted(got), "model": sorted(mod),
+                           "skel_error": serr[-300:], "stderr_tail": r["stderr"][-400:],
+                           "what": "two diagnostics of one code on one line, one inside and one outside the range of an @ignore: dropped iff the position lies in a range"})
+    shutil.rmtree(ed, ignore_errors=True)
     lib.obligation_gate(rep, ctx, "C16", found)
     rep.cov["evaluations"] = stats["evaluations"]
     rep.cov["distinct_nontrivial"] = len(stats["nontrivial"])
@@ -177,7 +203,7 @@ def run(ctx):
     rep.cov["rule"] = ("histories: ALL sequences of length <= %d over %d ops (6 codes x 18 ranges in 1..5 incl. 3 reversed, + 6 global ops)%s, "
                        "plus the nil receiver, each x %d queries (8 codes incl. CTOR/CTOR02/unknown x positions 0..6), enumerated exhaustively (%d histories); "
                        "plus %d random histories of length 1..8 (multi-code, empty and lower-case tokens, positions -2..40, 15%% out of fragment = a range starting <= 0). "
-                       "non-trivial = distinct in-fragment non-empty history on which at least one query is suppressed and one is not"
+                       "plus one end-to-end program (real binary and model): pairs of same-code diagnostics on one line around the mid-line end of a stand-alone @ignore range. non-trivial = distinct in-fragment non-empty history on which at least one query is suppressed and one is not"
                        % (2, len(alpha), " and length 3 over a reduced alphabet" if exhaustive_len == 3 else "", NQ, n_exh, nrand))
     rep.cov["samples"] = [{"ops": hist[200], "queries": QUERIES[:60] + "..."}, {"ops": hist[5000]}, {"ops": rh[0]}, {"ops": rh[1]}]
     rep.cov["out_of_fragment_cases"] = stats["out_of_fragment"]
@@ -188,6 +214,11 @@ def run(ctx):
 
 
 def replay(ctx, d):
+    if d.get("kind") == "end-to-end":
+        import l1
+        dd = dict(d)
+        dd["kind"] = "world"
+        return l1.replay(ctx, dd)
     if d.get("kind") != "history":
         print(d)
         return 0
